@@ -161,6 +161,118 @@ func findFunc(P *Program, full string) (*ssa.Function, error) {
 }
 
 func runHarness(P *Program, cfg *RunCfg, replayTrace []Decision, concModel map[string]uint64) (*Report, error) {
+	if cfg.Shards <= 1 || replayTrace != nil {
+		return runShard(P, cfg, 0, replayTrace, concModel)
+	}
+	if cfg.ShardDepth == 0 {
+		cfg.ShardDepth = 6
+	}
+	reps := make([]*Report, cfg.Shards)
+	errs := make([]error, cfg.Shards)
+	var wg sync.WaitGroup
+	for k := 0; k < cfg.Shards; k++ {
+		wg.Add(1)
+		go func(k int) {
+			defer wg.Done()
+			reps[k], errs[k] = runShard(P, cfg, k, nil, nil)
+		}(k)
+	}
+	wg.Wait()
+	for _, e := range errs {
+		if e != nil {
+			return nil, e
+		}
+	}
+	return mergeReports(reps), nil
+}
+
+func mergeReports(rs []*Report) *Report {
+	m := rs[0]
+	seen := map[string]bool{}
+	for _, v := range m.Violations {
+		seen[v.Label] = true
+	}
+	fs := map[string]bool{}
+	for _, f := range m.Funcs {
+		fs[f] = true
+	}
+	for _, r := range rs[1:] {
+		m.Paths += r.Paths
+		for k, v := range r.PathKinds {
+			m.PathKinds[k] += v
+		}
+		for _, v := range r.Violations {
+			if !seen[v.Label] {
+				seen[v.Label] = true
+				m.Violations = append(m.Violations, v)
+			}
+		}
+		m.Inconclusive = append(m.Inconclusive, r.Inconclusive...)
+		for k, v := range r.Reached {
+			m.Reached[k] += v
+		}
+		for k, v := range r.Asserts {
+			m.Asserts[k] += v
+		}
+		m.Obligations += r.Obligations
+		m.Discharged += r.Discharged
+		m.DecisionPts += r.DecisionPts
+		m.Steps += r.Steps
+		for _, f := range r.Funcs {
+			fs[f] = true
+		}
+		if len(m.Samples) < 6 {
+			m.Samples = append(m.Samples, r.Samples...)
+		}
+		m.Queries += r.Queries
+		m.Unknowns += r.Unknowns
+		m.SolverErrors = append(m.SolverErrors, r.SolverErrors...)
+		m.SolverTimeS += r.SolverTimeS
+		if r.WallS > m.WallS {
+			m.WallS = r.WallS
+		}
+		m.Complete = m.Complete && r.Complete
+		if r.MaxTraceLen > m.MaxTraceLen {
+			m.MaxTraceLen = r.MaxTraceLen
+		}
+		for k, v := range r.Stubs {
+			m.Stubs[k] += v
+		}
+	}
+	m.Funcs = nil
+	for f := range fs {
+		m.Funcs = append(m.Funcs, f)
+	}
+	sort.Strings(m.Funcs)
+	m.MissingReach = nil
+	for _, mk := range m.Cfg.Reach {
+		if m.Reached[mk] == 0 {
+			m.MissingReach = append(m.MissingReach, mk)
+		}
+	}
+	// drop per-shard vacuity notes; recompute verdict
+	var inc []string
+	for _, x := range m.Inconclusive {
+		if !strings.HasPrefix(x, "VACUOUS:") {
+			inc = append(inc, x)
+		}
+	}
+	m.Inconclusive = inc
+	switch {
+	case len(m.Violations) > 0:
+		m.Verdict = "VIOLATED"
+	case len(m.Inconclusive) > 0 || !m.Complete || m.Unknowns > 0 || len(m.SolverErrors) > 0 || len(m.MissingReach) > 0:
+		m.Verdict = "INCONCLUSIVE"
+		if len(m.MissingReach) > 0 {
+			m.Inconclusive = append(m.Inconclusive, "VACUOUS: markers never reached: "+strings.Join(m.MissingReach, ","))
+		}
+	default:
+		m.Verdict = "HOLDS"
+	}
+	return m
+}
+
+func runShard(P *Program, cfg *RunCfg, shard int, replayTrace []Decision, concModel map[string]uint64) (*Report, error) {
 	fn, err := findFunc(P, cfg.Func)
 	if err != nil {
 		return nil, err
@@ -177,6 +289,7 @@ func runHarness(P *Program, cfg *RunCfg, replayTrace []Decision, concModel map[s
 	}
 	vm := &VM{prog: P.prog, tb: NewTermBank(), solver: solver, cfg: cfg, intMode: cfg.IntMode, funcsSeen: map[*ssa.Function]bool{}}
 	ex := NewExplorer(vm, cfg)
+	ex.shard = shard
 	if replayTrace != nil {
 		ex.trace = replayTrace
 		ex.replay = true
